@@ -5,6 +5,7 @@ import ChemProofs.Drv.Spec
 import ChemProofs.Drv.Formula
 import ChemProofs.Drv.Conv
 import ChemProofs.Drv.Brain
+import ChemProofs.Drv.CBind
 /- Model driver: `driver <mode>` reads op lines on stdin, prints one observation line per op. -/
 open Chem.Drv
 
@@ -37,6 +38,9 @@ def main (args : List String) : IO UInt32 := do
     return 0
   | ["brainhist"] => do
     loop (← IO.getStdin) runBrainHist
+    return 0
+  | ["cbind"] => do
+    loop (← IO.getStdin) runCBindCase
     return 0
   | ["peaks"] => do
     loop (← IO.getStdin) runPeaksCase
